@@ -197,6 +197,59 @@ pub fn dispatch(kind: &str, a: &[&str]) -> Option<String> {
             }
             out.join(" ")
         }
+        // >>> s_c09 (wave 6): a HISTORY of calls on one reader
+        // tr.skipn <cap|slice> <sched> <hex> <ops>: ops = comma separated `n<k>` (k calls of next(), each must yield a
+        // token), `k` (skip_container), `u` (skip_unquoted_value); every skip prints `SKIP@position()`; then drain
+        ("tr.skipn", [cap, sched, h, ops]) => {
+            let d = unhex(h);
+            let n = d.len();
+            let mut out = Vec::new();
+            macro_rules! go {
+                ($rd:expr) => {{
+                    let mut live = true;
+                    'ops: for op in ops.split(',') {
+                        if op.is_empty() || op == "-" {
+                            continue;
+                        }
+                        if let Some(k) = op.strip_prefix('n') {
+                            for _ in 0..p(k) {
+                                match $rd.next() {
+                                    Ok(Some(_)) => {}
+                                    _ => {
+                                        out.push("SHORT".to_string());
+                                        live = false;
+                                        break 'ops;
+                                    }
+                                }
+                            }
+                        } else {
+                            let r = if op == "k" { $rd.skip_container() } else { $rd.skip_unquoted_value() };
+                            match r {
+                                Ok(()) => out.push(format!("SKIP@{}", $rd.position())),
+                                Err(e) => {
+                                    out.push(err_class(&e).to_string());
+                                    live = false;
+                                    break 'ops;
+                                }
+                            }
+                        }
+                    }
+                    if live {
+                        drain(&mut $rd, &mut out, n + 2);
+                    }
+                }};
+            }
+            if *cap == "slice" {
+                let mut rd = TokenReader::from_slice(&d);
+                go!(rd);
+            } else {
+                let src = SchedRead::new(d.clone(), parse_sched(sched));
+                let mut rd = TokenReader::builder().buffer_len(p(cap)).build(src);
+                go!(rd);
+            }
+            out.join(" ")
+        }
+        // <<< s_c09
         // tr.readbytes <cap|slice> <sched> <hex> <ntok> <nbytes>
         ("tr.readbytes", [cap, sched, h, ntok, nb]) => {
             let d = unhex(h);
